@@ -30,7 +30,7 @@ def shuffled(rng, items):
 def rand_closed_tree(rng, pns=(), depth=0, maxdepth=3):
     ns = dict(pns)
     for _ in range(rng.choice([0, 0, 1, 2])):
-        ns[rng.choice(["eml", "stmml", "xsi", "p", "q"])] = rng.choice(["u1", "u2", "http://x/y", gen.rand_text(rng, 4)])
+        ns[rng.choice(["eml", "stmml", "xsi", "p", "q", "xml"])] = rng.choice(["u1", "u2", "http://x/y", gen.rand_text(rng, 4)])
     def d():
         out = {}
         for _ in range(rng.choice([0, 0, 1, 2, 3])):
@@ -90,6 +90,15 @@ def run(ctx):
             back = metapype_io.from_json(text)
             res["current"] = impl.snapshot(back)
             text2 = metapype_io.to_json(back)
+            if rng.random() < 0.3:
+                # loading is a function of the text: edit the first result, load the same text again
+                for nd in walk(back):
+                    nd.content = (nd.content or "") + "!edited"
+                    nd.add_attribute("zzEdited", "1")
+                impl.reset()
+                back = metapype_io.from_json(text)
+                res["current"] = impl.snapshot(back)
+                text2 = metapype_io.to_json(back)
             if closed:
                 if res["current"] != orig:
                     fails.append({"case": case, "what": "from_json(to_json(tree)) differs from the tree"})
